@@ -105,6 +105,15 @@ Docs == { [n |-> 14, kind |-> Kinds, parent |-> Par,
            rbg |-> <<"always", "whenActive">>, idisp |-> ""]
           : c \in [rd : {0, 1}, rp : {0, 1, 2}, rc : {0, 1, 2}, rb : {0, 1, 2}, rs : {0, 2}, rt : {0, 1, 2}, tt : {<<N, N>>, <<2, 6>>},
                    re : {N, 4}] }
+        \cup   \* ... and with an EMPTY base (it counts only in the region it is associated with)
+        { [n |-> 10, kind |-> <<"body", "div", "p", "span", "text", "ruby", "rb", "rt", "span", "text">>,
+           parent |-> <<0, 1, 2, 3, 4, 3, 6, 6, 8, 9>>,
+           b |-> <<N, N, N, N, N, N, c.tb[1], N, N, N>>, e |-> <<N, N, N, N, N, N, c.tb[2], N, N, N>>,
+           reg |-> <<0, c.rd, c.rp, 0, 0, c.rc, c.rb, c.rt, 0, 0>>, disp |-> Emp(10), anim |-> NoAnim(10),
+           txt |-> <<0, 0, 0, 0, 1, 0, 0, 0, 0, 1>>,
+           nr |-> 2, rb |-> <<N, N>>, re |-> <<N, N>>, rdisp |-> <<"", "">>, ranim |-> <<<<>>, <<>>>>,
+           rbg |-> <<"always", "whenActive">>, idisp |-> ""]
+          : c \in [rd : {0, 1}, rp : {0, 1, 2}, rc : {0, 1, 2}, rb : {0, 1, 2}, rt : {0, 1, 2}, tb : {<<N, N>>, <<2, 6>>}] }
 """),
 }
 
@@ -150,6 +159,12 @@ def random_doc(rng, max_nodes=40, anim_styles=False, space=False, ruby=True, rub
     out = []
     for _ in range(rng.choice([1, 1, 2, 3])):
       out.append({"b": t_opt(0.3), "e": t_opt(0.3), "v": rng.choice(["none", "none", "auto"])})
+    if rng.random() < 0.12:
+      # the same step stated again after another one that overlaps it (the LAST active step prevails, so the restatement
+      # matters): x, y, x with x and y of different values
+      x = dict(out[0])
+      y = {"b": x["b"], "e": t_opt(0.5), "v": "auto" if x["v"] == "none" else "none"}
+      out = [x, y, dict(x)]
     return out
 
   def add(k, p, timed=True, regable=True):
